@@ -8,6 +8,8 @@ use std::collections::HashSet;
 use std::convert::TryFrom;
 
 const MAX_DEPTH: usize = 20;
+// How far below the configured depth the generator may descend before giving up.
+const MAX_RECURSION_BELOW_BUDGET: isize = 2000;
 
 #[derive(Debug, Deserialize, Clone)]
 pub struct GenConfig {
@@ -114,6 +116,13 @@ pub struct RandState<'a>(State<'a, GenConfig>);
 impl RandState<'_> {
     pub fn any(&mut self, u: &mut Unstructured, ty: &Type) -> Result<IDLValue> {
         let old_config = self.0.push_state(&StateElem::Type(ty));
+        // The depth budget only steers choices; a type without a finite value (e.g.
+        // `type T = record { next : T }`) would recurse forever.
+        if self.0.config.depth.is_some_and(|d| d < -MAX_RECURSION_BELOW_BUDGET) {
+            return Err(Error::msg(
+                "random value generation does not terminate: the type may have no finite value",
+            ));
+        }
         if let Some(vec) = &self.0.config.value {
             let v = u.choose(vec)?;
             let v: IDLValue = super::parse_idl_value(v)?;
@@ -265,7 +274,8 @@ impl RandState<'_> {
                 )
             }
             TypeInner::Service(_) => IDLValue::Service(crate::Principal::arbitrary(u)?),
-            _ => unimplemented!(),
+            TypeInner::Empty => return Err(Error::msg("the type empty has no values")),
+            t => return Err(Error::msg(format!("cannot generate a value of type {t}"))),
         });
         self.0.pop_state(old_config, StateElem::Type(ty));
         res
@@ -403,6 +413,9 @@ where
             let max = T::max_value();
             let l = T::try_from(l).unwrap_or(min);
             let r = T::try_from(r).unwrap_or(max);
+            if l > r {
+                return Err(Error::msg("empty range in the random configuration"));
+            }
             u.int_in_range(l..=r)?
         }
     })
@@ -417,7 +430,12 @@ fn arbitrary_variant(u: &mut Unstructured, weight: &[usize]) -> Result<usize> {
             Some(*sum)
         })
         .collect();
-    let selected = u.int_in_range(0..=prefix_sum[prefix_sum.len() - 1] - 1)?;
+    // no alternative, or only alternatives without values (weight 0)
+    let total = prefix_sum.last().copied().unwrap_or(0);
+    if total == 0 {
+        return Err(Error::msg("variant type has no case with a value"));
+    }
+    let selected = u.int_in_range(0..=total - 1)?;
     for (i, e) in prefix_sum.iter().enumerate() {
         if selected < *e {
             return Ok(i);
